@@ -238,6 +238,15 @@ func c10Run(p c10Params, ch vrt.Chooser, trace bool) (*world.World, *vrt.Exec, *
 				}
 			}
 		}
+		if p.api == "Close+AddPeer" {
+			// another goroutine adds a (refused, active) peer P3 while Close is in flight
+			vrt.GoWorld("adder", func() {
+				w.NW.OnDial("10.0.0.4:179", func(int, *net.TCPAddr) vnet.DialOutcome { return vnet.DialOutcome{Kind: vnet.DialRefuse} })
+				w.Append(world.Event{Kind: "api:AddPeer", Phase: "call", Peer: "10.0.0.4", Conn: -1})
+				err := w.Server.AddPeer(peerConfig("10.0.0.4", 65001, 65004), &world.Plugin{W: w, Peer: "P3"}, corebgp.WithDialerControl(w.DialControl("P3")))
+				w.Append(world.Event{Kind: "api:AddPeer", Phase: "return", Peer: "10.0.0.4", Conn: -1, Err: fmt.Sprint(err)})
+			})
+		}
 		o.apiCalled = true
 		o.callT = vrt.Cur().Now()
 		o.openAtCall = map[int]bool{}
@@ -306,6 +315,15 @@ func c10Judge(p c10Params, w *world.World, e *vrt.Exec, o *c10Obs) (string, stri
 	if len(o.leakAtEnd) > 0 {
 		return "goroutine-leak", fmt.Sprintf("corebgp goroutines still alive after Close and Serve returned: %v", o.leakAtEnd)
 	}
+	closeRet := -1
+	for _, ev := range w.Log {
+		if ev.Kind == "api:Close" && ev.Phase == "return" {
+			closeRet = ev.Seq
+		}
+		if closeRet >= 0 && ev.Kind == "dial" && ev.Seq > closeRet {
+			return "dial-after-close", fmt.Sprintf("peer %s dials at #%d after Close returned at #%d", ev.Peer, ev.Seq, closeRet)
+		}
+	}
 	if !w.ServeDone || w.ServeErr != corebgp.ErrServerClosed {
 		return "serve-return", fmt.Sprintf("Serve returned %v (done=%v)", w.ServeErr, w.ServeDone)
 	}
@@ -371,7 +389,10 @@ func c10Scenarios(th bool) []*Scn {
 		if n == 0 {
 			n = e.Steps()
 		}
-		for _, api := range []string{"Close", "DeletePeer"} {
+		for _, api := range []string{"Close", "DeletePeer", "Close+AddPeer"} {
+			if api == "Close+AddPeer" && si != 5 && si != 8 && si != 0 {
+				continue // out-established, in-established, out-refuse
+			}
 			out = append(out, c10Scn(c10Params{si, api, -1}, bound+1))
 			stride := 1
 			if !th && n > 120 {
